@@ -60,7 +60,7 @@ def compare_outputs(case, run, expected=None, what="program", which=None):
     for name in (which or S.outputs(spec)):
         got, err = X.output_map(run["ns"], spec, name)
         if err:
-            raise Violation("%s: %s" % (what, err), sig="output-binding:" + err.split(" ")[2 if err.startswith("output variable") else 3][:20],
+            raise Violation("%s: %s" % (what, err), sig="output-binding:" + ("missing" if "is missing" in err else "rank-ids" if "rank ids" in err else "malformed"),
                             details={"yaml": S.to_yaml(spec)})
         exp = expected[name]
         if got != exp:
